@@ -35,7 +35,7 @@ CHECKS = {
             "types/structure.py:StructureMetaType._read",
         ],
         "required_cells": ["compiled:True", "fallback", "align:True", "align:False", "endian:<", "endian:>",
-                           "explicit-offsets", "mixed-modes", "deep-folded-length-source"],
+                           "explicit-offsets", "mixed-modes"],
         "assumptions": ASSUME_COMMON,
     },
 }
@@ -68,7 +68,7 @@ CHECKS["C01"] = {
                        "types/int.py:Int._write", "types/packed.py:Packed._write", "types/enum.py:EnumMetaType._write",
                        "types/pointer.py:Pointer._write", "<compiled>"],
     "required_cells": ["pinned-witnesses", "align:True", "align:False", "endian:<", "endian:>", "feat:bits:signed", "feat:union",
-                       "feat:ptr", "feat:arr:struct"],
+                       "feat:ptr", "feat:arr:struct", "deep-folded-length-source"],
     "assumptions": ASSUME_COMMON,
 }
 
@@ -304,12 +304,13 @@ CHECKS["C15"] = {
     "level": "exploration",
     "shards": {"quick": 16, "thorough": 32},
     "budget": {"quick": 240, "thorough": 600},
-    "rule": "fourteen workloads (expression-sized arrays, bit-fields+enums incl. dumping, unions with member assignment, "
+    "rule": "sixteen workloads (expression-sized arrays, bit-fields+enums incl. dumping, unions with member assignment, "
             "dereferenced pointers, nested arrays of structures with null-terminated wchar, LEB128 parse+dump, "
             "wchar/multi-dimensional/expression tails, null-terminated arrays of structures, unknown enum/flag values "
             "(pseudo-members created while threads interleave), parse + construct-and-dump + default construction, "
             "unary operators in lengths, unions written through a member that is not the first, long NUL-terminated "
-            "strings in place and behind a pointer, two-dimensional arrays with a run-time inner dimension) x "
+            "strings in place and behind a pointer, two-dimensional arrays with a run-time inner dimension, NUL-terminated "
+            "wide strings with surrogate pairs, constructed instances changed in place below the top level) x "
             "{compiled, interpreted}; 2-3 threads run jobs on independent streams with shared type objects under a "
             "deterministic scheduler that makes every source line of the library (thorough: every bytecode instruction "
             "of expression.py/bitbuffer.py) a yield point; ALL single-preemption schedules (both starting threads) are "
@@ -326,7 +327,9 @@ CHECKS["C15"] = {
                        "workload:leb:compiled", "workload:wide:interpreted", "workload:nullstructs:compiled",
                        "workload:enums:interpreted", "workload:dumpmix:compiled", "workload:exprneg:compiled",
                        "workload:exprneg:interpreted", "workload:unionwrite:interpreted", "workload:longstr:compiled",
-                       "workload:longstr:interpreted", "workload:grid:compiled", "workload:grid:interpreted"],
+                       "workload:longstr:interpreted", "workload:grid:compiled", "workload:grid:interpreted",
+                       "workload:wsurrogate:compiled", "workload:wsurrogate:interpreted", "workload:construct:compiled",
+                       "workload:construct:interpreted"],
     "assumptions": ASSUME_COMMON + ["context switches are modelled at source-line granularity (CPython can switch "
                                     "between bytecodes; thorough adds instruction granularity for the evaluator and the "
                                     "bit buffer)"],
@@ -347,9 +350,9 @@ CHECKS["C16"] = {
                        "types/pointer.py:Pointer.dereference", "types/pointer.py:Pointer.__default__",
                        "types/pointer.py:Pointer.__add__", "cstruct.py:cstruct._make_pointer", "<compiled>"],
     "required_cells": ["width:uint8", "width:uint16", "width:uint24", "width:uint32", "width:uint48", "width:uint64",
-                       "target:char", "target:struct", "target:ptrptr", "reader:compiled", "reader:interpreted",
-                       "endian:>", "union-pointers", "reconfigured-width", "context-target:first", "context-target:last",
-                       "context-target:both",
+                       "target:char", "target:wchar", "target:struct", "target:ptrptr", "reader:compiled", "reader:interpreted",
+                       "endian:>", "union-pointers", "union-pointers:built-from-values", "reconfigured-width", "context-target:first", "context-target:last",
+                       "context-target:both", "context-target:folded", "context-target:deep",
                        "copied-pointers", "linked-structures"],
     "assumptions": ASSUME_COMMON,
 }
@@ -505,11 +508,11 @@ MANIFEST_TEXT = {
     },
     "C15": {
         "text": "Systematic schedule exploration of real threads running the real library: a sys.monitoring-based "
-                "deterministic scheduler turns every library source line into a yield point; for fourteen workloads in both "
+                "deterministic scheduler turns every library source line into a yield point; for sixteen workloads in both "
                 "reader modes every single-preemption schedule is executed (exhaustive for that bound) on warm and on "
                 "cold (freshly loaded) types, plus random "
                 "multi-preemption schedules with 2-3 threads (and all two-preemption schedules of the small workloads "
-                "in thorough); each thread's result must equal its sequential result. The schedules, yield points and "
+                "in thorough); each thread's result must equal its sequential result, which in turn must be what the job gives alone on fresh types. The schedules, yield points and "
                 "distinct switch points seen are reported.",
         "design_ref": "DESIGN.md 4 C15",
         "note": "bounded preemptions at line granularity; a thread that never reaches a yield point makes the run "
